@@ -265,17 +265,28 @@ def gen_geom(rng, q_srs_choices=('EPSG:4326', 'EPSG:3857'), kind=None):
 WORLD = {'EPSG:4326': (-180.0, -85.0, 180.0, 85.0), 'EPSG:3857': (-20037508.0, -19971868.0, 20037508.0, 19971868.0)}
 
 
-def geom_limited_to(spec, q_srs, q_bbox):
+def out_of_world(spec, q_srs, q_bbox):
+    wb = WORLD[q_srs]
+    bx0, by0, bx1, by1 = [float(v) for v in q_bbox]
+    for ext, _holes in spec['shape']['polys']:
+        for p in ext:
+            x, y = bx0 + p[0] * (bx1 - bx0), by0 + p[1] * (by1 - by0)
+            if not (wb[0] <= x <= wb[2] and wb[1] <= y <= wb[3]):
+                return True
+    return False
+
+
+def geom_limited_to(spec, q_srs, q_bbox, cb=None):
+    """the limited_to dictionary of a geometry spec for the query extent.  Geometries are only given in another
+    SRS when every geometry of the callback result lies in the area where both projections are valid (coordinates
+    outside of it are not valid input: reprojecting them gives garbage)"""
     srs = spec['srs'] or q_srs
     if srs != q_srs and srs.replace('900913', '3857') != q_srs:
-        # only inside the valid area of both projections
-        wb = WORLD[q_srs]
-        bx0, by0, bx1, by1 = [float(v) for v in q_bbox]
-        for ext, _holes in spec['shape']['polys']:
-            for p in ext:
-                x, y = bx0 + p[0] * (bx1 - bx0), by0 + p[1] * (by1 - by0)
-                if not (wb[0] <= x <= wb[2] and wb[1] <= y <= wb[3]):
-                    srs = q_srs
+        specs = [spec] if cb is None else list(cb['geoms'].values())
+        if any(out_of_world(sp, q_srs, q_bbox) for sp in specs):
+            srs = q_srs
+    elif cb is not None and srs != q_srs and any(out_of_world(sp, q_srs, q_bbox) for sp in cb['geoms'].values()):
+        srs = q_srs
     res = materialise(spec['shape'], spec['form'], srs, q_srs, q_bbox)
     if res is None:
         res = materialise(spec['shape'], spec['form'], q_srs, q_srs, q_bbox)
@@ -350,7 +361,7 @@ def callback_result(cb, q_srs, q_bbox):
     res = {'authorized': 'foo' if kind == 'other' else kind}
 
     def lim(g):
-        return geom_limited_to(cb['geoms'][str(g)], q_srs, q_bbox)
+        return geom_limited_to(cb['geoms'][str(g)], q_srs, q_bbox, cb)
     if kind == 'partial' or cb.get('layers_always'):
         res['layers'] = {}
         for n, p in cb['layers'].items():
@@ -1065,7 +1076,7 @@ def geom_index(cb, q_srs, q_bbox):
     if cb is None:
         return idx
     for g, spec in cb['geoms'].items():
-        lt = geom_limited_to(spec, q_srs, q_bbox)
+        lt = geom_limited_to(spec, q_srs, q_bbox, cb)
         try:
             idx[geom_key(load_limited_to(lt))] = int(g)
         except Exception:  # noqa
@@ -1169,7 +1180,7 @@ def handle_map(ctx, cfg, req, cb, resp, status, rec, up_map, tree, names, extent
         """relative coordinates of the centre of response pixel (x, y) in the callback's frame"""
         X, Y = q_bbox[0] + (x + 0.5) * pw, q_bbox[3] - (y + 0.5) * ph
         rx, ry = (X - c_bbox[0]) / (c_bbox[2] - c_bbox[0]), (Y - c_bbox[1]) / (c_bbox[3] - c_bbox[1])
-        edge = 9.0 if req['format'] == 'image/jpeg' else 0.0      # jpeg blocks bleed over the edge of the sub image
+        edge = 9.0 if req['format'] == 'image/jpeg' else 1.0      # pixel alignment of the sub image; jpeg blocks bleed over its edge
         if sub and not (edge < rx * cw < cw - edge and edge < ry * chh < chh - edge):
             return None
         return rx, ry
@@ -1460,7 +1471,7 @@ def tile_cov_index(cb, layer, q_srs, q_bbox):
     for g in (own, glob):
         if g is not None:
             try:
-                covs[g] = load_limited_to(geom_limited_to(cb['geoms'][str(g)], q_srs, q_bbox))
+                covs[g] = load_limited_to(geom_limited_to(cb['geoms'][str(g)], q_srs, q_bbox, cb))
                 idx[geom_key(covs[g])] = [g]
             except Exception:  # noqa
                 pass
